@@ -36,6 +36,7 @@ from testtools.content import (
     TracebackContent,
 )
 from testtools.content_type import ContentType
+from testtools import _veriftrace
 from testtools.tags import TagContext
 
 # circular import
@@ -1439,6 +1440,8 @@ class ExtendedToOriginalDecorator:
         return getattr(self.decorated, name)
 
     def addError(self, test, err=None, details=None):
+        if _veriftrace.enabled:
+            _veriftrace.emit("result", res=id(self), name="addError")
         try:
             self._check_args(err, details)
             if details is not None:
@@ -1453,6 +1456,8 @@ class ExtendedToOriginalDecorator:
                 self.stop()
 
     def addExpectedFailure(self, test, err=None, details=None):
+        if _veriftrace.enabled:
+            _veriftrace.emit("result", res=id(self), name="addExpectedFailure")
         self._check_args(err, details)
         addExpectedFailure = getattr(self.decorated, "addExpectedFailure", None)
         if addExpectedFailure is None:
@@ -1466,6 +1471,8 @@ class ExtendedToOriginalDecorator:
         return addExpectedFailure(test, err)
 
     def addFailure(self, test, err=None, details=None):
+        if _veriftrace.enabled:
+            _veriftrace.emit("result", res=id(self), name="addFailure")
         try:
             self._check_args(err, details)
             if details is not None:
@@ -1480,6 +1487,8 @@ class ExtendedToOriginalDecorator:
                 self.stop()
 
     def addSkip(self, test, reason=None, details=None):
+        if _veriftrace.enabled:
+            _veriftrace.emit("result", res=id(self), name="addSkip")
         self._check_args(reason, details)
         addSkip = getattr(self.decorated, "addSkip", None)
         if addSkip is None:
@@ -1496,6 +1505,8 @@ class ExtendedToOriginalDecorator:
         return addSkip(test, reason)
 
     def addUnexpectedSuccess(self, test, details=None):
+        if _veriftrace.enabled:
+            _veriftrace.emit("result", res=id(self), name="addUnexpectedSuccess")
         try:
             outcome = getattr(self.decorated, "addUnexpectedSuccess", None)
             if outcome is None:
@@ -1514,6 +1525,8 @@ class ExtendedToOriginalDecorator:
                 self.stop()
 
     def addSuccess(self, test, details=None):
+        if _veriftrace.enabled:
+            _veriftrace.emit("result", res=id(self), name="addSuccess")
         if details is not None:
             try:
                 return self.decorated.addSuccess(test, details=details)
@@ -1579,6 +1592,8 @@ class ExtendedToOriginalDecorator:
     shouldStop = property(_get_shouldStop, _set_shouldStop)
 
     def startTest(self, test):
+        if _veriftrace.enabled:
+            _veriftrace.emit("result", res=id(self), name="startTest")
         self._tags = TagContext(self._tags)
         return self.decorated.startTest(test)
 
@@ -1596,6 +1611,8 @@ class ExtendedToOriginalDecorator:
         self.shouldStop = True
 
     def stopTest(self, test):
+        if _veriftrace.enabled:
+            _veriftrace.emit("result", res=id(self), name="stopTest")
         # NOTE: In Python 3.12.1 skipped tests may not call startTest()
         if self._tags is not None:
             self._tags = self._tags.parent
